@@ -16,7 +16,7 @@ import numpy as np
 
 from mc import common, quadmc
 from mc.common import HarnessError
-from mc.quadmc import (DOMS, Horizon, build, build_ref, check_state, find_leaf, fingerprint, horizon, leaf5, leafset,
+from mc.quadmc import (DOMS, Horizon, build, build_ref, check_signature, check_state, find_leaf, horizon, leaf5, leafset,
                        rect_of, with_order, xy)
 from mc.refquad import DYADIC, P, RefQuad, dyadic_coord
 
@@ -191,7 +191,8 @@ def edge_sets(e):
 
 def run_case(dom, hist, piece, l, k, rname, pts, raw, orient, argtype, cm, expected, target, first_fp, verbose=False):
     """One boundary-targeting call on a fresh replay of `hist`.  Returns (list of (clause, tag/exc, detail),
-    fingerprint or None, counters)."""
+    check signature or None, counters).  The full state check is skipped when the signature (everything the state
+    check reads) equals that of the first variant of the same segment, which was checked."""
     axis, fixed, lo, hi = piece
     out = []
     cnt = {'bdr_calls': 1, 'bdr_completed': 0, 'vfc_calls': 0, 'full_state_checks': 0}
@@ -246,7 +247,7 @@ def run_case(dom, hist, piece, l, k, rname, pts, raw, orient, argtype, cm, expec
         if got != expected.leaves:
             out.append(('bdr-least', 'tag', 'leafset', {'only_impl': sorted(got - expected.leaves)[:4],
                                                         'only_ref': sorted(expected.leaves - got)[:4]}))
-        fp = fingerprint(m)
+        fp = check_signature(m)
         if first_fp is None or fp != first_fp:
             cnt['full_state_checks'] = 1
             for t, d in check_state(dom, m):
@@ -400,52 +401,66 @@ def run_bdr(ctx, rep, units, label, totals, samples):
     return c
 
 
+def walk_unit(u):
+    """One supplementary seeded long history: lock-step with the reference, invariants at the end, all one-step
+    refinements from the end state.  Returns (violations [(dom, hist, v)], steps, history, info)."""
+    dom, seed, nsteps = u
+    viols = []
+    steps = 0
+    h = quadmc.random_history(dom, seed, nsteps)
+    m = quadmc.fresh(dom)
+    ref = RefQuad(dom)
+    for n, r in enumerate(h):
+        try:
+            with horizon(HLIMIT):
+                m.refine(find_leaf(m, r))
+        except (Exception, Horizon) as ex:
+            viols.append((dom, h[:n + 1], ('refine-raised', repr(ex))))
+            return viols, steps, None, None
+        ref.refine_rect(r)
+        steps += 1
+        if leafset(m) != ref.leaves:
+            viols.append((dom, h[:n + 1], ('transition', 'random walk diverged from the reference')))
+            return viols, steps, None, None
+    for v in check_state(dom, m, ref):
+        viols.append((dom, h, v))
+    for op in sorted(rect_of(e) for e in m.leaf_elements):
+        try:
+            with horizon(HLIMIT):
+                m2 = build(dom, h + (op, ))
+        except (Exception, Horizon) as ex:
+            viols.append((dom, h + (op, ), ('refine-raised', repr(ex))))
+            continue
+        v = quadmc.trans_check(dom, h, op, m2, ref)
+        steps += 1
+        if v is not None:
+            viols.append((dom, h + (op, ), v))
+        for v in quadmc.check_numbering(m2):
+            viols.append((dom, h + (op, ), v))
+    info = {'domain': dom, 'seed': seed, 'steps': len(h), 'leaves': len(m.leaf_elements),
+            'max_level': max(e.level for e in m.leaf_elements)}
+    return viols, steps, h, info
+
+
 def random_walks(ctx, rep, cfg):
-    """Supplementary seeded long histories (never counted towards the exhaustive claim): lock-step with the
-    reference, invariants at the end, all one-step refinements and a light targeting sweep from the end state."""
+    """Supplementary seeded long histories (never counted towards the exhaustive claim) and a light targeting
+    sweep (l <= 4) from their end states."""
+    us = [(DOMS[(ctx.seed + i) % 3], ctx.seed * 7919 + i, cfg['walk_steps']) for i in range(cfg['walks'])]
     steps_total = 0
     extra_units = []
-    info = []
-    for i in range(cfg['walks']):
-        dom = DOMS[(ctx.seed + i) % 3]
-        h = quadmc.random_history(dom, ctx.seed * 7919 + i, cfg['walk_steps'])
-        m = quadmc.fresh(dom)
-        ref = RefQuad(dom)
-        bad = False
-        for n, r in enumerate(h):
-            try:
-                with horizon(HLIMIT):
-                    m.refine(find_leaf(m, r))
-            except (Exception, Horizon) as ex:
-                rep.state(dom, h[:n + 1], ('refine-raised', repr(ex)))
-                bad = True
-                break
-            ref.refine_rect(r)
-            steps_total += 1
-            if leafset(m) != ref.leaves:
-                rep.state(dom, h[:n + 1], ('transition', 'random walk diverged from the reference'))
-                bad = True
-                break
-        if bad:
+    infos = []
+    for (dom, _, _), (viols, steps, h, info) in zip(us, common.pmap(walk_unit, us, ctx.jobs, chunksize=1)):
+        steps_total += steps
+        for d, hh, v in viols:
+            rep.state(d, hh, v)
+        if h is None:
             continue
-        for v in check_state(dom, m, ref):
-            rep.state(dom, h, v)
-        for op in sorted(rect_of(e) for e in m.leaf_elements):
-            m2 = build(dom, h + (op, ))
-            v = quadmc.trans_check(dom, h, op, m2, ref)
-            steps_total += 1
-            if v is not None:
-                rep.state(dom, h + (op, ), v)
-            for v in quadmc.check_numbering(m2):
-                rep.state(dom, h + (op, ), v)
-        npieces = len(RefQuad(dom).boundary_pieces())
-        for pi in range(npieces):
+        infos.append(info)
+        for pi in range(len(RefQuad(dom).boundary_pieces())):
             for l in range(0, 5):
                 for k in range(1 << l):
                     extra_units.append((dom, h, pi, l, k, 'light'))
-        info.append({'domain': dom, 'steps': len(h), 'leaves': len(m.leaf_elements),
-                     'max_level': max(e.level for e in m.leaf_elements)})
-    return steps_total, extra_units, info
+    return steps_total, extra_units, infos
 
 
 def run(ctx):
